@@ -6,6 +6,8 @@ One `World` = one real experiment instance (realenv.experiment_from_flowir) in a
     stage0:  p, q   producers (their working directories hold the source locations pa pd pl pm pt / qa qd)
     stage1:  s      a producer in the consumer's own stage (sa)
              c      THE CONSUMER, with the references under test            (migrated: the consumer is stage1.p)
+    stage0:  lw     (only when a reference names the placeholder stage0.w) a DoWhile document with the looped component w:
+                    iteration 0 = stage0.0#w (location w0), iteration 1 = stage0.1#w (w1) after the event `iter`
     input/a  data/a  app/a app/d   the direct sources (app = an application-dependency folder linked into the instance)
 
 Every behaviour starts from `reset(src)`: the sources are rebuilt as the model's Init says, the consumer's working directory is
@@ -36,13 +38,23 @@ import experiment.model.data as D
 import experiment.model.errors as E
 import experiment.runtime.workflow as WF
 
-LOCS = ["in", "da", "ap", "apd", "pa", "pd", "pl", "pm", "pt", "pp", "pg", "qa", "qd", "sa"]
+LOCS = ["in", "da", "ap", "apd", "pa", "pd", "pl", "pm", "pt", "pp", "pg", "qa", "qd", "sa", "wa", "w0", "w1"]
 REFPATH = {"in": "input/a", "da": "data/a", "ap": "app/a", "apd": "app/d", "pa": "stage0.p/a", "pd": "stage0.p/d", "pl": "stage0.p/l",
            "pm": "stage0.p/m", "pt": "stage0.p/t.tar", "pp": "stage0.p", "pg": "stage0.p/a*", "qa": "stage0.q/a", "qd": "stage0.q/d",
-           "sa": "stage1.s/a"}
+           "sa": "stage1.s/a", "wa": "stage0.w/a"}
 RELPATH = {"in": "input/a", "da": "data/a", "ap": "app/a", "apd": "app/d", "pa": "stages/stage0/p/a", "pd": "stages/stage0/p/d",
            "pl": "stages/stage0/p/l", "pm": "stages/stage0/p/m", "pt": "stages/stage0/p/t.tar", "pp": "stages/stage0/p",
-           "qa": "stages/stage0/q/a", "qd": "stages/stage0/q/d", "sa": "stages/stage1/s/a"}
+           "qa": "stages/stage0/q/a", "qd": "stages/stage0/q/d", "sa": "stages/stage1/s/a",
+           "w0": "stages/stage0/0#w/a", "w1": "stages/stage0/1#w/a"}
+DOWHILE = """
+type: DoWhile
+inputBindings: {}
+loopBindings: {}
+condition: 'w:output'
+components:
+- name: w
+  command: {executable: echo, arguments: hello}
+"""
 TICK0 = 20
 
 
@@ -97,6 +109,11 @@ class World:
         with open(os.path.join(root, "user_input.txt"), "w") as f:
             f.write("1")
         comps = [realenv.simple_component("q", 0), realenv.simple_component("s", 1)]
+        self.loop = any(r["l"] == "wa" for r in self.refs)
+        extra_files = {"data/a": "2"}
+        if self.loop:
+            comps.append({"name": "lw", "stage": 0, "$import": "dowhile.yaml", "bindings": {}})
+            extra_files["conf/dowhile.yaml"] = DOWHILE
         if self.mig:
             comps += [realenv.simple_component("p", 0, workflowAttributes={"isMigratable": True}),
                       realenv.simple_component("p", 1, references=["stage0.p:link"], workflowAttributes={"isMigrated": True})]
@@ -107,7 +124,7 @@ class World:
                       realenv.simple_component("c", 1, references=[refstr(r) for r in self.refs], **extra)]
             self.cname = "c"
         flowir = {"application-dependencies": {"default": ["app.application"]}, "components": comps}
-        exp = realenv.experiment_from_flowir(flowir, root, extra_files={"data/a": "2"}, inputs=[os.path.join(root, "user_input.txt") + ":a"], validate=False)      # the rename form  <path>:<name in input/>
+        exp = realenv.experiment_from_flowir(flowir, root, extra_files=extra_files, inputs=[os.path.join(root, "user_input.txt") + ":a"], validate=False)      # the rename form  <path>:<name in input/>
         self.inst = exp.instanceDirectory.location
         self.wdpath = os.path.join(self.inst, "stages", "stage1", self.cname)
         self.cid = "stage1.%s" % self.cname
@@ -122,13 +139,15 @@ class World:
         self.exp = self.job = self.cs = None
         self.tick = TICK0
         self.res, self.launch = "none", "none"
+        self.niter = 1
 
     # ---- building the sources -------------------------------------------------------------------------------------------
     def set_loc(self, l, ent):
-        if l in ("pp", "pg"):
+        if l in ("pp", "pg", "wa"):
             return
         p = self.path[l]
         _rm(p)
+        os.makedirs(os.path.dirname(p), exist_ok=True)
         k = ent["k"]
         if k == "file":
             if l == "pt":
@@ -156,10 +175,14 @@ class World:
         else:
             shutil.rmtree(self.wdpath, ignore_errors=True)
         os.mkdir(self.wdpath)
-        for d in ("stages/stage0/p", "stages/stage0/q", "stages/stage1/s"):
+        for d in ("stages/stage0/p", "stages/stage0/q", "stages/stage1/s") + (("stages/stage0/0#w",) if self.loop else ()):
             full = os.path.join(self.inst, d)
             for n in os.listdir(full):
                 _rm(os.path.join(full, n))
+        shutil.rmtree(os.path.join(self.inst, "stages/stage0/1#w"), ignore_errors=True)
+        if self.niter != 1:
+            self.exp = None                   # the graph of the last behaviour has a second iteration: start from the instance again
+            self.niter = 1
         for l in LOCS:
             if l in src:
                 self.set_loc(l, src[l])
@@ -220,7 +243,7 @@ class World:
         wd, wl = self.project_wd()
         return {"wd": sorted(wd), "wl": wl, "src": self.project_src(),
                 "inp": sorted(os.path.basename(x) for x in self.job.workingDirectory.inputs),
-                "st": bool(self.job.isStaged), "res": self.res, "launch": self.launch}
+                "st": bool(self.job.isStaged), "res": self.res, "launch": self.launch, "ni": self.niter}
 
     # ---- events --------------------------------------------------------------------------------------------------------
     def stage_in(self, first_label):
@@ -233,7 +256,7 @@ class World:
 
         def snap():
             wd, wl = self.project_wd()
-            return {"wd": sorted(wd), "wl": wl, "src": self.project_src(),
+            return {"wd": sorted(wd), "wl": wl, "src": self.project_src(), "ni": self.niter,
                     "inp": sorted(os.path.basename(x) for x in job.workingDirectory.inputs), "st": bool(job.isStaged)}
 
         def hooked(dataReference, location, graph):
@@ -369,6 +392,16 @@ class World:
             else:
                 raise Mismatch("unknown mutation %s" % how)
             return [(("mut", l, how, 0), self.project())], box
+        if e == "iter":
+            # the loop gets its next iteration (not persisted: store_flowir_to_disk=False); its working directory is made as the
+            # runtime would make it when it creates the Job of the new iteration
+            wg = self.exp.experimentGraph
+            meta = wg._documents["DoWhile"]["stage0.lw"]
+            wg.instantiate_dowhile_next_iteration(meta["document"], 1, False)
+            os.makedirs(os.path.join(self.inst, "stages/stage0/1#w"), exist_ok=True)
+            self.niter = 2
+            self.job = self.exp.graph.nodes[self.cid]["componentInstance"]
+            return [(("iter", "", "", 0), self.project())], box
         if e == "write":
             self.tick += 1
             try:
@@ -388,12 +421,12 @@ def model_projection(s):
     """s: the `s` field of a state emitted by DataStaging.tla (EmitState) -> the shape of World.project()"""
     wd = sorted((tuple(e["p"]), e["k"], e["c"], e["to"]) for e in s["wd"])
     src = {l: (v["k"], v["c"], v["to"]) for l, v in s["src"].items()}
-    return {"wd": wd, "wl": s["wl"], "src": src, "inp": sorted(s["inp"]), "st": s["st"], "res": s["res"], "launch": s["launch"]}
+    return {"wd": wd, "wl": s["wl"], "src": src, "inp": sorted(s["inp"]), "st": s["st"], "res": s["res"], "launch": s["launch"], "ni": s["ni"]}
 
 
 def differences(real, model):
     out = []
-    for k in ("wd", "wl", "inp", "st", "res", "launch"):
+    for k in ("wd", "wl", "inp", "st", "res", "launch", "ni"):
         if real[k] != model[k]:
             out.append("%s: real %s, specified %s" % (k, real[k], model[k]))
     for l in sorted(set(real["src"]) | set(model["src"])):
